@@ -265,7 +265,8 @@ def main():
 
     common.import_repo()
 
-    # optional second gate of a property module (C10: effect model regenerated from the source); it runs in a child
+    # optional second gate of a property module (C10: effect model regenerated from the source; C01/C02/C03/C08/C09/C15:
+    # decision tables regenerated from the source, harness/dectables.py); it runs in a child
     # process while the cases are generated and judged
     extra_handle = None
     if hasattr(mod, "extra_gate_start") and gate["build_ok"]:
@@ -280,7 +281,7 @@ def main():
         try:
             ex = mod.extra_gate_finish(extra_handle)
         except Exception as e:  # noqa: BLE001
-            return {"notes": [f"EFFECT-MODEL-PROBLEM {type(e).__name__}: {e}"], "evidence": {"status": "not evaluated"}}
+            return {"notes": [f"EXTRA-GATE-PROBLEM {type(e).__name__}: {e}"], "evidence": {"status": "not evaluated"}}
         gate["problems"] += ex.get("problems", [])
         gate["theorems"].update(ex.get("theorems", {}))
         gate["obligations"] += ex.get("obligations", 0)
@@ -424,7 +425,7 @@ def main():
         "violations": violations,
     }
     if extra is not None and extra.get("evidence") is not None:
-        ev["coverage"]["effect_model"] = extra["evidence"]
+        ev["coverage"][extra.get("evidence_key", "effect_model")] = extra["evidence"]
     # evidence/ describes runs against /repo itself; a run against another tree (SA_REPO: seeded / harmless
     # self-validation in a scratch worktree) leaves it alone and writes under .work/
     ev_dir = common.VERIF / "evidence" if common.REPO == Path("/repo").resolve() else common.WORK / "evidence_other_tree"
